@@ -18,18 +18,35 @@ def insertSortedS (x : String) : List String → List String
 def showTOuts (os : List Out) : String :=
   if os.isEmpty then "-" else String.intercalate " | " ((os.map showTOut).foldl (fun acc x => insertSortedS x acc) [])
 
+/-- the H4 driver state: the model's transaction table plus the ids started without a waiter (ignoreResult):
+    the completion of such a transaction is not delivered to anybody, so it is not an observable output -/
+structure TxnDrv where
+  s : St
+  nowait : List Nat
+
+def TxnDrv.init : TxnDrv := ⟨⟨0, []⟩, []⟩
+
+def dropQuiet (nw : List Nat) (os : List Out) : List Out :=
+  os.filter fun o => match o with
+    | .done k _ _ => !nw.contains k
+    | _ => true
+
 /-- H4 line protocol: the client's transaction table under virtual time (milliseconds) -/
-def txnStep (s : St) (toks : List String) : Option (St × String) :=
+def txnStep (d : TxnDrv) (toks : List String) : Option (TxnDrv × String) :=
   match toks with
-  | ["tnew"] => some (⟨0, []⟩, "ok")
+  | ["tnew"] => some (TxnDrv.init, "ok")
   | ["tstart", k, rto, failAt] =>
-    let r := step s (.on (natOf k) (.start (natOf rto) (if failAt == "-" then none else some (natOf failAt))))
-    some (r.1, showTOuts r.2)
-  | ["tresp", k] => let r := step s (.on (natOf k) .resp); some (r.1, showTOuts r.2)
-  | ["tadv", dt] => let r := advanceTo 100000 s (s.now + natOf dt); some (r.1, showTOuts r.2)
-  | ["tclose"] => let r := step s .close; some (r.1, showTOuts r.2)
-  | ["tsize"] => some (s, toString s.trs.length)
-  | ["trace", _] => some (s, "ok")    -- real-time race scenario of H4: judged by its monitor (exactly_once is the theorem)
+    let r := step d.s (.on (natOf k) (.start (natOf rto) (if failAt == "-" then none else some (natOf failAt))))
+    some (⟨r.1, d.nowait⟩, showTOuts (dropQuiet d.nowait r.2))
+  | ["tstart", k, rto, failAt, "nowait"] =>
+    -- a failing first write is still reported to the caller; everything later is silent
+    let r := step d.s (.on (natOf k) (.start (natOf rto) (if failAt == "-" then none else some (natOf failAt))))
+    some (⟨r.1, natOf k :: d.nowait⟩, showTOuts (dropQuiet d.nowait r.2))
+  | ["tresp", k] => let r := step d.s (.on (natOf k) .resp); some (⟨r.1, d.nowait⟩, showTOuts (dropQuiet d.nowait r.2))
+  | ["tadv", dt] => let r := advanceTo 100000 d.s (d.s.now + natOf dt); some (⟨r.1, d.nowait⟩, showTOuts (dropQuiet d.nowait r.2))
+  | ["tclose"] => let r := step d.s .close; some (⟨r.1, d.nowait⟩, showTOuts (dropQuiet d.nowait r.2))
+  | ["tsize"] => some (d, toString d.s.trs.length)
+  | ["trace", _] => some (d, "ok")    -- real-time race scenario of H4: judged by its monitor (exactly_once is the theorem)
   | _ => none
 
 end Drv
